@@ -291,6 +291,66 @@ pub fn describe(args: &[String]) -> i32 {
     0
 }
 
+/// run the `any` binary on one query; the child is killed if it has not finished after `secs` seconds
+fn run_binary(any: &str, home: &std::path::Path, mode: &str, q: &str, secs: u64) -> (String, String, i32, bool) {
+    use std::io::Read;
+    let mut cmd = std::process::Command::new(any);
+    cmd.env("XDG_DATA_HOME", home).env("HOME", home).env("NO_COLOR", "1").env_remove("RUST_LOG").env_remove("ANYTHING_VERIF_TRACE").env_remove("ANYTHING_VERIF_CRASH");
+    match mode {
+        "exact" => {
+            cmd.arg("--exact").arg("--").arg(q);
+        }
+        "describe" => {
+            cmd.arg("--describe").arg("--").arg(q);
+        }
+        "describe_after" if !q.trim_start().starts_with('-') && !q.is_empty() => {
+            // the flag behind the query (a query that starts with `-` would itself be read as a flag)
+            cmd.arg(q).arg("--describe");
+        }
+        "describe_after" => {
+            cmd.arg("--describe").arg("--").arg(q);
+        }
+        _ => {
+            cmd.arg("--").arg(q);
+        }
+    }
+    cmd.stdout(std::process::Stdio::piped()).stderr(std::process::Stdio::piped());
+    let mut child = match cmd.spawn() {
+        Ok(c) => c,
+        Err(e) => return (String::new(), format!("spawn: {}", e), -2, false),
+    };
+    // the output of one query is small: reading after the exit cannot block on a full pipe
+    let start = std::time::Instant::now();
+    let mut timed_out = false;
+    let status = loop {
+        match child.try_wait() {
+            Ok(Some(st)) => break Some(st),
+            Ok(None) => {
+                if start.elapsed().as_secs() >= secs {
+                    let _ = child.kill();
+                    let _ = child.wait();
+                    timed_out = true;
+                    break None;
+                }
+                std::thread::sleep(std::time::Duration::from_millis(2));
+            }
+            Err(_) => break None,
+        }
+    };
+    let (mut so, mut se) = (String::new(), String::new());
+    if let Some(mut o) = child.stdout.take() {
+        let mut b = Vec::new();
+        let _ = o.read_to_end(&mut b);
+        so = String::from_utf8_lossy(&b).to_string();
+    }
+    if let Some(mut e) = child.stderr.take() {
+        let mut b = Vec::new();
+        let _ = e.read_to_end(&mut b);
+        se = String::from_utf8_lossy(&b).to_string();
+    }
+    (so, se, status.and_then(|s| s.code()).unwrap_or(if timed_out { -9 } else { -1 }), timed_out)
+}
+
 /// `conform c19-record --in QUERIES --out FILE --any PATH --work DIR`
 /// Every query is run through the real `any` binary (default, --exact and --describe) under a private data directory
 /// and evaluated in-process with the library; both are recorded.
@@ -312,6 +372,14 @@ pub fn cli(args: &[String]) -> i32 {
     for (qi, q) in queries.iter().enumerate() {
         let mode = if modes4 { ["default", "exact", "describe", "describe_after"][qi % 4] } else { ["default", "exact", "describe"][qi % 3] };
         let describe_mode = mode == "describe" || mode == "describe_after";
+        // the binary first, under a deadline: a query it never returns from is not evaluated in process (it would hang here too)
+        let (stdout, stderr, code, timed_out) = run_binary(&any, &home, mode, q, 20);
+        if timed_out {
+            n += 1;
+            out.line(&json!({"id": n, "text": q, "mode": mode, "results": [], "descs": [], "lib_panic": "not evaluated: the binary did not finish within 20 s",
+                             "lib_parse_error": "", "stdout": [], "stderr": ["no result after 20 s: killed"], "exit": code, "timeout": true}));
+            continue;
+        }
         let o = run_query(&db, q, describe_mode);
         let results: Vec<Value> = o.results.iter().map(|r| match r {
             Ok(v) => json!({"k": "val", "u": ids.as_ref().map(|i| crate::lang::units_json(&unit_names(&v.unit), i)).unwrap_or_else(|| json!([])), "msg": "",
@@ -346,31 +414,6 @@ pub fn cli(args: &[String]) -> i32 {
                 }
             }
         }
-        let mut cmd = std::process::Command::new(&any);
-        cmd.env("XDG_DATA_HOME", &home).env("HOME", &home).env("NO_COLOR", "1").env_remove("RUST_LOG").env_remove("ANYTHING_VERIF_TRACE").env_remove("ANYTHING_VERIF_CRASH");
-        match mode {
-            "exact" => {
-                cmd.arg("--exact").arg("--").arg(q);
-            }
-            "describe" => {
-                cmd.arg("--describe").arg("--").arg(q);
-            }
-            "describe_after" if !q.trim_start().starts_with('-') && !q.is_empty() => {
-                // the flag behind the query (a query that starts with `-` would itself be read as a flag)
-                cmd.arg(q).arg("--describe");
-            }
-            "describe_after" => {
-                cmd.arg("--describe").arg("--").arg(q);
-            }
-            _ => {
-                cmd.arg("--").arg(q);
-            }
-        }
-        let res = cmd.output();
-        let (stdout, stderr, code) = match res {
-            Ok(o) => (String::from_utf8_lossy(&o.stdout).to_string(), String::from_utf8_lossy(&o.stderr).to_string(), o.status.code().unwrap_or(-1)),
-            Err(e) => (String::new(), format!("spawn: {}", e), -2),
-        };
         n += 1;
         out.line(&json!({"id": n, "text": q, "mode": mode, "results": results, "descs": descs, "lib_panic": o.panic.clone().unwrap_or_default(),
                          "lib_parse_error": o.parse_error.clone().unwrap_or_default(),
